@@ -48,4 +48,10 @@ CHECKS = {
         "feature combinations x label pools is the right level for an unbounded space.",
    note="Trusted base: vf/ref/objective.py, xarray .sel. Cases whose reference is ill-conditioned (kappa>1e8) or NNLS in the F13 regime are skipped and counted.",
    technique="runtime monitoring: result-dataset oracle over real optimisations, label-keyed comparison with an independent reference, unique-id data"),
+ "C13": dict(category="exploration",
+   text="Every successful Result of real optimisations (three methods, 3-8 evaluations, noisy data) over the C02 scheme space is checked against the "
+        "statement's formulae computed from the result's own datasets, the independent reference objective (penalties, number of clps) and a fresh "
+        "optimiser's re-evaluation at the optimised parameters; covariance against the oracle's own SVD with a conditioning-aware tolerance.",
+   note="Trusted base: vf/ref/objective.py, numpy SVD. Ill-conditioned references (kappa>1e8), NNLS groups in the F13 regime and singular values at the cut-off are skipped and counted.",
+   technique="runtime monitoring: recorders on create_result / covariance + consistency oracle over real optimisation results"),
 }
